@@ -4,6 +4,7 @@ CONSTANTS MaxReq = 4
           MaxLeases = 2
           MaxClock = 4
           MaxReconnects = 0
+          OvertakesHeld = FALSE
           AppActsOnHeld = FALSE
           QSize = 0
 INVARIANT TypeOK
